@@ -205,12 +205,16 @@ func runC09Kill(w *core.WorkerCtx, idx int, c c09Case) *core.CaseResult {
 		return res
 	}
 	var tsdb int64
+	var slowReload int32 // > 0: Prometheus takes 1.5 s to reload (a big configuration): the sidecar's start-up blocks on it
 	prom := httptest.NewServer(http.HandlerFunc(func(rw http.ResponseWriter, r *http.Request) {
 		rw.Header().Set("Content-Type", "application/json")
 		if strings.HasSuffix(r.URL.Path, "/status/tsdb") {
 			atomic.AddInt64(&tsdb, 1)
 			io.WriteString(rw, `{"status":"success","data":{"headStats":{"numSeries":0}}}`)
 			return
+		}
+		if strings.HasSuffix(r.URL.Path, "/-/reload") && atomic.LoadInt32(&slowReload) > 0 {
+			time.Sleep(1500 * time.Millisecond)
 		}
 		io.WriteString(rw, `{"status":"success"}`)
 	}))
@@ -223,7 +227,21 @@ func runC09Kill(w *core.WorkerCtx, idx int, c c09Case) *core.CaseResult {
 	rounds := 4
 	var trace []string
 	for round := 0; round < rounds; round++ {
-		rs, err := startRealSidecar(bin, dir, prom.URL, func() int64 { return atomic.LoadInt64(&tsdb) })
+		// in every second case the restarts find a Prometheus that is slow to reload: whatever the sidecar's API
+		// answers FIRST after the restart must already be the resumed assignment
+		if idx%2 == 1 && round > 0 {
+			atomic.StoreInt32(&slowReload, 1)
+			res.AddStat("restarts_while_prometheus_is_slow_to_reload", 1)
+		}
+		var extra []string
+		if idx%2 == 1 {
+			// file mode (the binary's default): the configuration is read from a file at start-up, before the store
+			cfgFile := filepath.Join(dir, "prometheus.yml")
+			_ = os.WriteFile(cfgFile, []byte("global:\n  scrape_interval: 15s\nscrape_configs:\n- job_name: node\n- job_name: kubelet\n"), 0644)
+			extra = append(extra, "--config.file="+cfgFile)
+		}
+		rs, err := startRealSidecar(bin, dir, prom.URL, func() int64 { return atomic.LoadInt64(&tsdb) }, extra...)
+		atomic.StoreInt32(&slowReload, 0)
 		if err != nil {
 			if strings.Contains(err.Error(), "exited during start-up") {
 				res.Violate("C09/kill/start-fails", "real sidecar did not start on the store left by a SIGKILL (round %d): %v: %s", round, err, clipS(rs.stderr.String(), 600))
